@@ -26,6 +26,11 @@ def run_stats_values(run, prop, cases, binp, codes, what, tag=""):
         if not st["ok"]:
             nerr += 1
             continue
+        if c["meta"]["N"] <= c["meta"]["M"] + c["meta"]["P"]:
+            run.violation("%s: statistics with a covariance matrix were produced for N = %d samples and M + P = %d parameters (no degrees of "
+                          "freedom: sigma^2 (H^T H)^-1 does not exist)" % (what, c["meta"]["N"], c["meta"]["M"] + c["meta"]["P"]),
+                          {"case": c, "stats": st["stats"]})
+            continue
         if st["stats"].get("corr_deprecated") is not None and st["stats"]["corr_deprecated"] != st["stats"]["corr"]:
             run.violation("%s: the deprecated accessor correlation_matrix() differs from calculate_correlation_matrix()" % what,
                           {"case": c, "stats": st["stats"]})
@@ -125,6 +130,12 @@ def main(tier, seed, replay=None):
         cases.append(statsrun.gen_stats_case(rng, M, P, M + P + rng.randint(3, 10), scalar=sc, weights=["none", "pos"][j % 2],
                                              noise=(1e-9 if sc == "f64" else 1e-5) * rng.choice([1.0, 0.1, 10.0]), qbits=(44 if sc == "f64" else 30),
                                              quant=None, probs=[0.683]))
+    # exactly as many (and fewer) samples than parameters: there is no reduced chi^2, hence no covariance sigma^2 (H^T H)^-1 — a result
+    # with a covariance matrix for such a fit is not the covariance of anything (judged in run_stats_values)
+    for j in range(8 if tier == "quick" else 40):
+        M, P = COMBOS[j % 6]
+        cases.append(statsrun.gen_stats_case(rng, M, P, M + P - (1 if j % 4 == 3 and M + P > 2 else 0), scalar=("f32" if j % 5 == 4 else "f64"),
+                                             weights=["none", "pos"][j % 2], noise=0.05, quant=(8 if j % 2 else None), probs=[0.683]))
     results, idx, hist, nerr = run_stats_values(run, "C13", cases, binp, (20, 21, 22, 23, 24, 25, 26, 27, 28, 31), "covariance")
     # the same problems in the release profile (no debug assertions, no overflow checks): the statistics must not depend on it
     rel_cases = [c for k, c in enumerate(cases) if tier != "quick" or k % 2 == 0]
